@@ -237,3 +237,23 @@ pub extern "C" fn c20_de() {
     vassert(matches!(c, Ok(ref c) if **c.load() == x), 9);
     cover(1);
 }
+
+// ---------------------------------------------------------------------------- concurrent: serialize || store
+
+impl Serialize for crate::vptr::VPtr {
+    fn serialize<S: Serializer>(&self, s: S) -> Result<S::Ok, S::Error> {
+        // looking into the value checks that it is alive
+        s.serialize_u64(self.read())
+    }
+}
+
+/// thread 1 serializes the container while thread 2 replaces (and destroys) the value
+#[no_mangle]
+pub extern "C" fn c20_r_serialize() {
+    let a = crate::scn_conc::CX_A.get().as_ref().unwrap();
+    let mut r = Rec::new();
+    let ok = a.serialize(&mut r).is_ok();
+    merge();
+    // what came out is the serialization of a value that was stored: obj0 (10) or obj1 (11)
+    vassert(ok && r.n == 1 && (r.toks[0] == (2, 10) || r.toks[0] == (2, 11)), 70);
+}
